@@ -46,9 +46,14 @@ def anchors():
 NAN = float('nan')
 
 
+FS = frozenset([1])
+
+
 def lf(x):
     if x == '<nan>':
         return NAN
+    if x == '<fs>':
+        return FS
     return tuple(x) if isinstance(x, list) else x
 
 
@@ -380,6 +385,8 @@ class M2mCheck(object):
         A, B = ['a', 'b', 'c', 1], [1, 2, 3, 'a']
         if r.random() < 0.25:
             A, B = A + ['<nan>'], B + ['<nan>']     # a key that is not equal to itself (float('nan'))
+        if r.random() < 0.25:
+            A, B = A + ['<fs>'], B + ['<fs>']       # a frozenset as a member: an equal plain set is NOT hashable
         for _ in range(r.randint(1, r.choice([6, 20, 60]))):
             side = r.choice(['fwd', 'fwd', 'inv'])
             ks, vs = (A, B) if side == 'fwd' else (B, A)
@@ -387,7 +394,7 @@ class M2mCheck(object):
             name = r.choices(['add', 'remove', 'set', 'del', 'replace', 'update', 'bad'], [30, 14, 10, 8, 12, 14, 6])[0]
             if name == 'bad':
                 how = r.choice(['add-value', 'add-value', 'add-key', 'set-values', 'replace-newkey', 'update-pairs',
-                                'update-dict', 'remove-value'])
+                                'update-dict', 'remove-value', 'remove-set-value', 'remove-set-value'])
                 ops.append([side, 'bad', how, r.choice(ks + ['new']), [[r.choice(ks), r.choice(vs)] for _ in range(r.choice([1, 2, 3]))],
                             r.randint(0, 2)])
             elif name in ('add', 'remove'):
@@ -467,6 +474,11 @@ class M2mCheck(object):
                         got = outcome(obj.remove, k, [1, 2])
                         if got == ('exc', 'KeyError'):
                             got = ('exc', 'TypeError')      # either refusal is fine
+                    elif how == 'remove-set-value':
+                        # {1} == frozenset({1}) but only the latter can be a member
+                        got = outcome(obj.remove, k, {1})
+                        if got == ('exc', 'KeyError'):
+                            got = ('exc', 'TypeError')
                     elif how == 'set-values':
                         vals = [b for _, b in bad]
                         got = outcome(obj.__setitem__, k, vals)
